@@ -201,8 +201,13 @@ Definition apply_gates_fixed (n : nat) (tc : list sterm * Zi) (S : mat Zi) : mat
   let total := msum ZK (map (fun t => apply_term_fixed n t S) (fst tc)) in
   if zi_is0 (snd tc) then total else madd ZK total (mscale ZK (snd tc) S).
 
+Fixpoint memn (x : nat) (l : list nat) : bool :=
+  match l with [] => false | y :: l' => (x =? y) || memn x l' end.
+Fixpoint nodupb (l : list nat) : bool :=
+  match l with [] => true | x :: l' => negb (memn x l') && nodupb l' end.
+(* every term has at most one factor per qubit (TFIM / XXZ-like forms) *)
 Definition one_factor_per_qubit (ts : list sterm) : bool :=
-  forallb (fun t => Nat.eqb (length (t_targets t)) (length (t_factors t))) ts.
+  forallb (fun t => nodupb (map snd (t_factors t))) ts.
 
 (* ------------------------------------------------------------------ expectation *)
 Fixpoint vdotc (u v : vec Zi) : Zi :=
